@@ -347,7 +347,9 @@ class PathAccessError(GlomError, AttributeError, KeyError, IndexError):
         self.part_idx = part_idx
 
     def get_message(self):
-        path_part = Path(self.path).values()[self.part_idx]
+        # (an S-rooted Path cannot be re-wrapped in Path())
+        path = self.path if isinstance(self.path, Path) else Path(self.path)
+        path_part = path.values()[self.part_idx]
         return ('could not access %r, part %r of %r, got error: %r'
                 % (path_part, self.part_idx, self.path, self.exc))
 
